@@ -44,7 +44,7 @@ pub open spec fn part_ok(filepath: Seq<char>, len: u64, spec: Seq<char>, p: Cont
     &&& p.body@ == file_slice(file_content(filepath), p.range.start as int, p.range.end as int)
     &&& p.size@ == dec(len as nat)
     &&& p.unit@ == "bytes"@
-    &&& (filepath.len() > 0 && filepath.last() != '/' ==> p.content_type@ == mime_of(filepath))   // the label of a file path (never empty, never ends in '/')
+    &&& (filepath.len() > 0 && filepath.last() != '/' && mime_listed(filepath) ==> p.content_type@ == mime_of(filepath))   // the label of a file path (never empty, never ends in '/')
 }
 
 // ---------- the whole-file request "bytes=0-" that the static controller issues when the request has no Range header ----------
